@@ -14,7 +14,7 @@
                         from the source on every run) is either reviewed-acceptable or one of exactly
                         three known product-of-extents sites. *)
 From Coq Require Import String ZArith List Bool.
-From Verif Require Import Shape COO S_dense_sites SparseOps SparseOpsP.
+From Verif Require Import Shape COO S_dense_sites SparseOps SparseOpsP DenseSites DenseSitesP.
 Import ListNotations.
 Open Scope Z_scope.
 
@@ -122,6 +122,15 @@ Print Assumptions concat_sparse_den.
 Theorem mem_bound_concat : forall a (x y : coo Z), cost_of (sp_concat_tr a x y) <= nnz x + nnz y.
 Proof. exact mem_bound_concat_proof. Qed.
 Print Assumptions mem_bound_concat.
+
+(* position i in {0, 1} along the new axis a selects the operand *)
+Theorem stack_sparse_den : forall (a : nat) (x y : coo Z) (k : idx) (i : Z),
+  (a <= length (c_shape x))%nat -> c_shape y = c_shape x -> shape_ok (c_shape x) ->
+  Forall (in_range (c_shape x)) (c_coords x) -> Forall (in_range (c_shape y)) (c_coords y) ->
+  c_fill y = c_fill x -> in_range (c_shape x) k -> 0 <= i < 2 ->
+  den (sp_stack a x y) (insert_at a i k) = if i =? 0 then den x k else den y k.
+Proof. exact stack_sparse_den_proof. Qed.
+Print Assumptions stack_sparse_den.
 
 Theorem mem_bound_stack : forall a (x y : coo Z), cost_of (sp_stack_tr a x y) <= nnz x + nnz y.
 Proof. exact mem_bound_stack_proof. Qed.
